@@ -1,5 +1,6 @@
 import PP.Driver.Codec
 import PP.Model.StrDoc
+import PP.Driver.ValCodec
 open PP PP.Sexp
 
 /-- one layout configuration `(w rw smart)` -/
@@ -14,6 +15,13 @@ def handle (req : Sexp) : Sexp :=
     | some d, some cfgs =>
       .list (sym "ok" :: cfgs.map fun cfg =>
         let out := layout cfg d
+        .list [encodeSDocs out, ofStr "text" (render out)])
+    | _, _ => sym "bad-request"
+  | .list (.atom "pformat" :: v :: sets) =>
+    match decodeVal v, sets.mapM decodeSettings with
+    | some v, some sets =>
+      .list (sym "ok" :: sets.map fun st =>
+        let out := Pr.sdocsM st v
         .list [encodeSDocs out, ofStr "text" (render out)])
     | _, _ => sym "bad-request"
   | .list [.atom "strlines", isB, slash, maxLen, q, .list chars] =>
